@@ -343,6 +343,22 @@ func runC07(c *Ctx) {
 			c07Block(c, r, cols, len(lens), 54460)
 		}
 	}
+	// an enum whose definition has a member for the value 0 (what zero-filled memory would decode as), as the only / last
+	// column: a cut inside its values must not come out as rows of that member
+	for _, types := range [][]string{{"Enum8('z' = 0, 'a' = 1)"}, {"UInt8", "Enum16('z' = 0, 'b' = 300)"}, {"String", "Enum8('z' = 0, 'a' = 1, 'c' = -3)"}, {"Array(Enum8('z' = 0, 'a' = 1))"}, {"Nullable(Enum16('z' = 0, 'b' = 300))"}} {
+		for _, rows := range []int{1, 5} {
+			i := 0
+			cols, err := buildCols(r, len(types), rows, genOpts{}, func() *TNode {
+				t, _ := parseCH(types[i])
+				i++
+				return t
+			})
+			if err != nil {
+				continue
+			}
+			c07Block(c, r, cols, rows, 54460)
+		}
+	}
 	c07ExceptionChains(c, r.Fork())
 	revs := c17Revisions(false)
 	per := 2
